@@ -128,5 +128,8 @@ def run(chk):
         eq('R05.3', f'l={l}: volumetric rate * 4 pi r^2 == (21/2) G M^2 R^5 n e^2/a^6 * [4 pi G/((2l+1)R)] H_mu Im(mu)', val * 4 * pi * r * r, ref, mh.where(fh))
     chk.ob('R05.3', 'only negative values are clamped (mask assignment to 0)', len(skipped) >= 1 and all('< 0' in s and s.rstrip().endswith('= 0.0') for s in skipped),
            f'mask statements: {skipped}', mh.where(fh), method='AST pattern')
+    from .common import inplace_lint
+    inplace_lint(chk, repo, 'R05.4', ['TidalPy/radial_solver/sensitivity.py', 'TidalPy/tides/multilayer/heating.py'])
+    chk.floor('R05.4', 2)
     chk.floor('R05.1', 24); chk.floor('R05.2', 4); chk.floor('R05.3', 3)
     chk.assume('r > 0 at every node; moduli complex; the world radius is the last element of the radius array')
